@@ -12,9 +12,11 @@ namespace Astm.C01
     table regenerated from the source on every run (gen/gen_purity.py): module-level and class-level objects,
     containers that are stored into / mutated / handed out by functions, `global` statements, mutable default
     arguments, closures kept by decorators, decorators, assert statements (gone under `python -O`), reads of
-    process-wide state and package-internal imports of these modules are exactly those of the reviewed contract. -/
+    process-wide state and package-internal imports of these modules are exactly those of the reviewed contract;
+    `protocol#entry`: the event loop enters the protocol through the reviewed callbacks only (the transport callbacks
+    the class defines, the callables it schedules) - the alphabet of the models' events. -/
 theorem anchored_code_keeps_no_other_state :
-    Purity.agree ["protocol", "utils", "__init__"] = true := by
+    Purity.agree ["protocol", "protocol#entry", "utils", "__init__"] = true := by
   decide +kernel
 
 end Astm.C01
